@@ -55,6 +55,10 @@ func cmdRegexp(p *lang.Process) (err error) {
 		return
 	}
 
+	if len(sRegex[0]) == 0 {
+		return fmt.Errorf("invalid regexp (no mode specified) in: `%s`", p.Parameters.StringAll())
+	}
+
 	switch sRegex[0][0] {
 	case 'm':
 		return regexMatch(p, rx, dt, _WITHOUT_HEADING)
